@@ -98,3 +98,15 @@ fn k_chunky_header() {
     assert!(c.pos == 100);
     same_words(&chunked, &whole, 13);
 }
+
+/// an index entry through a destination that accepts 3 bytes per call: the same 8 big-endian bytes
+#[kani::proof]
+#[kani::unwind(12)]
+fn k_chunky_index_entry() {
+    let e = crate::reader::ShapeIndex { offset: kani::any(), record_size: kani::any() };
+    let mut chunked = [0u8; 16];
+    let mut c = Chunky { buf: &mut chunked[..], pos: 0, k: 3 };
+    assert!(e.write_to(&mut c).is_ok());
+    assert!(c.pos == 8);
+    assert!(chunked[0..4] == e.offset.to_be_bytes() && chunked[4..8] == e.record_size.to_be_bytes() && chunked[8] == 0);
+}
